@@ -202,12 +202,13 @@ Record kin c (s : RS.state) (ph : N -> RS.phase) (fr : sframe) (ec' : N) (c2 : s
   K_od : N.odd (sf_sid fr) = true;
   K_base : base c fr (sc_strms c2) l' h';
   K_ctx : kctx c ec' l' h' c2;
+  K_cw : sc_clientWindow c2 = sc_clientWindow c;
   K_f : sfacts c s ph fr st l' h'
 }.
 
 Lemma kin_wr c s ph fr ec' c2 st l' h' : kin c s ph fr ec' c2 st l' h' -> sc_sl_done c2 = false /\ sc_wl_dead c2 = false.
 Proof.
-  intros [HS Hsl _ _ _ (K1 & K2 & K3 & K4 & K5 & K6 & K7 & K8 & K9 & K10 & K11 & K12) _].
+  intros [HS Hsl _ _ _ (K1 & K2 & K3 & K4 & K5 & K6 & K7 & K8 & K9 & K10 & K11 & K12) _ _].
   pose proof (S_aux _ _ _ _ HS) as [AT _]. rewrite K8, K6. split; [exact Hsl | apply (A_wl _ _ AT)].
 Qed.
 
@@ -234,7 +235,7 @@ Lemma K_data c s ph fr ec' c2 st l' h' :
   feed c (IIn (RFrame fr)) = fst (tail (handle_frame dec_field cfg c2 st fr) fr (sc_closing c)) ->
   G c s ph (RFrame fr) (feed c (IIn (RFrame fr))).
 Proof.
-  intros KI KK E. pose proof KI as [HS Hsl SQ Od HB KC SF].
+  intros KI KK E. pose proof KI as [HS Hsl SQ Od HB KC CW SF].
   destruct (kin_wr _ _ _ _ _ _ _ _ _ KI) as [Sl2 Wl2].
   assert (NC : sf_kind fr <> KCont) by congruence.
   destruct (kin_noblock _ _ _ _ _ _ _ _ _ KI NC) as (BN & E0 & EC). rewrite KK in EC. cbn [fkind_eqb andb] in EC.
@@ -289,6 +290,7 @@ Proof.
         unfold phase_of, hs_state, abs_frame, RS.request_step. cbn [RS.f_kind RS.f_es]. rewrite KK, X, Fin. cbn.
         destruct (flag_has (sf_flags fr) FL_ES); reflexivity. }
       assert (B13 : sf_kind fr = KRst -> st_responded s3 = true -> st_handlerRunning s3 = false -> has_more_to_send s3 = true ->
+                    (st_pending s3 = [] \/ (0 < zmin (st_window s3) (sc_clientWindow CA__))%Z) ->
                     known_deviation hstate c s (RFrame fr) = true) by (intro Y; congruence).
       exact (after_ok hstate dec_field enc_field enc_set_max cfg c s ph fr ec' c2 l' h' c3 s3 HS Hsl SQ Od HB KC HE B1 Id3 B2 B3 B4 B5 B6 B7 B8 V B9 B10 B11 B12 B13 E).
   - (* half-closed (remote): STREAM_CLOSED *)
@@ -307,7 +309,7 @@ Lemma kin_plain c s ph fr ec' c2 st l' h' :
   ph (sf_sid fr) = phase_of st /\ sc_discardID c2 = sc_discardID c /\
   ((st_state st = SOpen /\ RS.st_of s (sf_sid fr) = RS.Open) \/ (st_state st = SHalfClosed /\ RS.st_of s (sf_sid fr) = RS.HalfClosedRemote)).
 Proof.
-  intros KI NC NH. pose proof KI as [HS Hsl SQ Od HB KC SF].
+  intros KI NC NH. pose proof KI as [HS Hsl SQ Od HB KC CW SF].
   destruct (kin_wr _ _ _ _ _ _ _ _ _ KI) as [Sl2 Wl2].
   destruct (kin_noblock _ _ _ _ _ _ _ _ _ KI NC) as (BN & E0 & EC).
   apply fkind_eqb_neq in NH. rewrite NH in EC. cbn [andb] in EC.
@@ -326,7 +328,7 @@ Lemma K_rst c s ph fr ec' c2 st l' h' :
   feed c (IIn (RFrame fr)) = fst (tail (handle_frame dec_field cfg c2 st fr) fr (sc_closing c)) ->
   G c s ph (RFrame fr) (feed c (IIn (RFrame fr))).
 Proof.
-  intros KI KK E. pose proof KI as [HS Hsl SQ Od HB KC SF].
+  intros KI KK E. pose proof KI as [HS Hsl SQ Od HB KC CW SF].
   destruct (kin_plain _ _ _ _ _ _ _ _ _ KI ltac:(congruence) ltac:(congruence)) as (Sl2 & Wl2 & BN & EC & Znn & NI & Fin & Hh & Tb & Hph & DI & XS).
   assert (V : RS.verdicts s (RS.Frame (abs_frame fr)) = RS.on_stream s (abs_frame fr)) by (apply verdicts_stream; [exact BN | exact Znn | rewrite KK; exact I]).
   assert (HF : handle_frame dec_field cfg c2 st fr = (c2, st, None)).
@@ -344,8 +346,10 @@ Proof.
   assert (B12 : st_state (handle_state fr st) <> SClosed -> RS.request_step (ph (sf_sid fr)) (abs_frame fr) = phase_of (handle_state fr st)).
   { intro Y. exfalso. apply Y. rewrite handle_state_st. unfold hs_state. rewrite KK. reflexivity. }
   assert (B13 : sf_kind fr = KRst -> st_responded st = true -> st_handlerRunning st = false -> has_more_to_send st = true ->
+                (st_pending st = [] \/ (0 < zmin (st_window st) (sc_clientWindow c2))%Z) ->
                 known_deviation hstate c s (RFrame fr) = true).
-  { intros _ R1 R2 R3. unfold known_deviation. rewrite KK. unfold SrvRfcDefs.tbl in Tb. rewrite Tb, R1, R2, R3. reflexivity. }
+  { intros _ R1 R2 R3 R4. unfold known_deviation. rewrite KK. unfold SrvRfcDefs.tbl in Tb. rewrite Tb, R1, R2, R3. cbn [negb andb].
+    destruct R4 as [R4|R4]; [rewrite R4; reflexivity|]. rewrite <- CW. apply Z.ltb_lt in R4. rewrite R4. apply orb_true_r. }
   exact (after_ok hstate dec_field enc_field enc_set_max cfg c s ph fr ec' c2 l' h' c2 st HS Hsl SQ Od HB KC (hf_eff_refl hstate c2) DI
            (F_id _ _ _ _ _ _ _ SF) B2 (F_x _ _ _ _ _ _ _ SF) B4 B5 (F_wr _ _ _ _ _ _ _ SF) (F_resp _ _ _ _ _ _ _ SF) (F_send _ _ _ _ _ _ _ SF)
            V B9 B10 B11 B12 B13 E).
@@ -356,7 +360,7 @@ Lemma K_prio c s ph fr ec' c2 st l' h' :
   feed c (IIn (RFrame fr)) = fst (tail (handle_frame dec_field cfg c2 st fr) fr (sc_closing c)) ->
   G c s ph (RFrame fr) (feed c (IIn (RFrame fr))).
 Proof.
-  intros KI KK E. pose proof KI as [HS Hsl SQ Od HB KC SF].
+  intros KI KK E. pose proof KI as [HS Hsl SQ Od HB KC CW SF].
   destruct (kin_plain _ _ _ _ _ _ _ _ _ KI ltac:(congruence) ltac:(congruence)) as (Sl2 & Wl2 & BN & EC & Znn & NI & Fin & Hh & Tb & Hph & DI & XS).
   assert (V : RS.verdicts s (RS.Frame (abs_frame fr)) = RS.on_stream s (abs_frame fr)) by (apply verdicts_stream; [exact BN | exact Znn | rewrite KK; exact I]).
   assert (HF : handle_frame dec_field cfg c2 st fr = if sf_dep fr =? sf_sid fr then (c2, st, Some (EGoAway c_ProtocolError)) else (c2, st, None)).
@@ -381,6 +385,7 @@ Proof.
     { intros _. rewrite Hph, phase_of_handle. unfold phase_of, hs_state, abs_frame, RS.request_step. cbn [RS.f_kind]. rewrite KK, Fin.
       destruct XS as [[X _]|[X _]]; rewrite X; reflexivity. }
     assert (B13 : sf_kind fr = KRst -> st_responded st = true -> st_handlerRunning st = false -> has_more_to_send st = true ->
+                    (st_pending st = [] \/ (0 < zmin (st_window st) (sc_clientWindow CA__))%Z) ->
                   known_deviation hstate c s (RFrame fr) = true) by (intro Y; congruence).
     exact (after_ok hstate dec_field enc_field enc_set_max cfg c s ph fr ec' c2 l' h' c2 st HS Hsl SQ Od HB KC (hf_eff_refl hstate c2) DI
              (F_id _ _ _ _ _ _ _ SF) B2 (F_x _ _ _ _ _ _ _ SF) B4 B5 (F_wr _ _ _ _ _ _ _ SF) (F_resp _ _ _ _ _ _ _ SF) (F_send _ _ _ _ _ _ _ SF)
@@ -392,7 +397,7 @@ Lemma K_winupd c s ph fr ec' c2 st l' h' :
   feed c (IIn (RFrame fr)) = fst (tail (handle_frame dec_field cfg c2 st fr) fr (sc_closing c)) ->
   G c s ph (RFrame fr) (feed c (IIn (RFrame fr))).
 Proof.
-  intros KI KK E. pose proof KI as [HS Hsl SQ Od HB KC SF].
+  intros KI KK E. pose proof KI as [HS Hsl SQ Od HB KC CW SF].
   destruct (kin_plain _ _ _ _ _ _ _ _ _ KI ltac:(congruence) ltac:(congruence)) as (Sl2 & Wl2 & BN & EC & Znn & NI & Fin & Hh & Tb & Hph & DI & XS).
   assert (V : RS.verdicts s (RS.Frame (abs_frame fr)) = RS.on_stream s (abs_frame fr)) by (apply verdicts_stream; [exact BN | exact Znn | rewrite KK; exact I]).
   set (w := (st_window st + Z.of_N (sf_inc fr))%Z).
@@ -439,7 +444,8 @@ Proof.
         unfold phase_of, hs_state, abs_frame, RS.request_step. cbn [RS.f_kind]. rewrite KK, Fin.
         destruct XS as [[X _]|[X _]]; rewrite X; reflexivity. }
       assert (B13 : sf_kind fr = KRst -> st_responded (set_window st w) = true -> st_handlerRunning (set_window st w) = false ->
-                    has_more_to_send (set_window st w) = true -> known_deviation hstate c s (RFrame fr) = true) by (intro Y; congruence).
+                    has_more_to_send (set_window st w) = true ->
+                    (st_pending (set_window st w) = [] \/ (0 < zmin (st_window (set_window st w)) (sc_clientWindow CA__))%Z) -> known_deviation hstate c s (RFrame fr) = true) by (intro Y; congruence).
       exact (after_ok hstate dec_field enc_field enc_set_max cfg c s ph fr ec' c2 l' h' c2 (set_window st w) HS Hsl SQ Od HB KC (hf_eff_refl hstate c2) DI
                (F_id _ _ _ _ _ _ _ SF) B2 (F_x _ _ _ _ _ _ _ SF) B4 B5 (F_wr _ _ _ _ _ _ _ SF) (F_resp _ _ _ _ _ _ _ SF) (F_send _ _ _ _ _ _ _ SF)
                V B9 B10 B11 B12 B13 E).
@@ -451,7 +457,7 @@ Lemma K_other c s ph fr ec' c2 st l' h' :
   feed c (IIn (RFrame fr)) = fst (tail (handle_frame dec_field cfg c2 st fr) fr (sc_closing c)) ->
   G c s ph (RFrame fr) (feed c (IIn (RFrame fr))).
 Proof.
-  intros KI KK E. pose proof KI as [HS Hsl SQ Od HB KC SF].
+  intros KI KK E. pose proof KI as [HS Hsl SQ Od HB KC CW SF].
   destruct (kin_plain _ _ _ _ _ _ _ _ _ KI ltac:(destruct KK; congruence) ltac:(destruct KK; congruence))
     as (Sl2 & Wl2 & BN & EC & Znn & NI & Fin & Hh & Tb & Hph & DI & XS).
   assert (V : RS.verdicts s (RS.Frame (abs_frame fr)) = [RS.CE c_ProtocolError]).
@@ -574,7 +580,7 @@ Lemma K_hdr_core c s ph fr ec' c2 st l' h' :
   feed c (IIn (RFrame fr)) = fst (tail (handle_frame dec_field cfg c2 st fr) fr (sc_closing c)) ->
   G c s ph (RFrame fr) (feed c (IIn (RFrame fr))).
 Proof.
-  intros KI KK VS R3 V Hrefd Hopen Hphase E. pose proof KI as [HS Hsl SQ Od HB KC SF].
+  intros KI KK VS R3 V Hrefd Hopen Hphase E. pose proof KI as [HS Hsl SQ Od HB KC CW SF].
   destruct (kin_wr _ _ _ _ _ _ _ _ _ KI) as [Sl2 Wl2].
   pose proof (ec'_hdr hstate c fr ec' SQ KK) as EC.
   destruct (handle_frame dec_field cfg c2 st fr) as [[c3 s3] e] eqn:HF.
@@ -639,6 +645,7 @@ Proof.
       assert (B12 : st_state (handle_state fr s3) <> SClosed -> RS.request_step (ph (sf_sid fr)) (abs_frame fr) = phase_of (handle_state fr s3)).
       { intros _. rewrite phase_of_handle, C2, Fin3. apply Hphase. reflexivity. }
       assert (B13 : sf_kind fr = KRst -> st_responded s3 = true -> st_handlerRunning s3 = false -> has_more_to_send s3 = true ->
+                    (st_pending s3 = [] \/ (0 < zmin (st_window s3) (sc_clientWindow CA__))%Z) ->
                     known_deviation hstate c s (RFrame fr) = true) by (intro Y; destruct KK; congruence).
       exact (after_ok hstate dec_field enc_field enc_set_max cfg c s ph fr ec' c2 l' h' c3 s3 HS Hsl SQ Od HB KC HE B1 Id3 B2 B3 B4 B5 B6 B7 Snd3 V Hmp B10 B11 B12 B13 E).
 Qed.
@@ -648,7 +655,7 @@ Lemma K_hdr c s ph fr ec' c2 st l' h' :
   feed c (IIn (RFrame fr)) = fst (tail (handle_frame dec_field cfg c2 st fr) fr (sc_closing c)) ->
   G c s ph (RFrame fr) (feed c (IIn (RFrame fr))).
 Proof.
-  intros KI KK E. pose proof KI as [HS Hsl SQ Od HB KC SF].
+  intros KI KK E. pose proof KI as [HS Hsl SQ Od HB KC CW SF].
   assert (Znn : sf_sid fr <> 0) by (intro Z; rewrite Z in Od; discriminate).
   pose proof (F_id _ _ _ _ _ _ _ SF) as Hid.
   destruct KK as [KH|KCn].
